@@ -43,7 +43,7 @@ def kinds(sch, T):
     return out
 
 
-def gen_value(rng, sch, ty, depth):
+def gen_value(rng, sch, ty, depth, full=False):
     """returns a Coq term of type value lval for tyref ty"""
     if "leaf" in ty:
         l = ty["leaf"]
@@ -65,10 +65,12 @@ def gen_value(rng, sch, ty, depth):
     fs = []
     for f, k in kinds(sch, T):
         present = rng.chance(3, 4) if depth < 3 else rng.chance(1, 3)
+        if full and depth < 3:
+            present = True            # every optional member of the upper levels (the all-members inputs of C02 / C03)
         if depth >= 6:
             present = False
         def one():
-            return gen_value(rng, sch, f["ty"], depth + 1)
+            return gen_value(rng, sch, f["ty"], depth + 1, full)
         if k == "KReq":
             fs.append("(FOne %s)" % one())
         elif k == "KOpt":
